@@ -50,7 +50,11 @@ META = {
             "batches) runs identically for every seed; non-trivial = X not the identity or a != 0; distinct by "
             "(op, api, type, dtype, regime tags, shapes)",
     "trusted": ["floating-point round-off is measured against the property's tolerances, not proved",
-                "mpmath (30 digits) matrix exponential / linear solve used as the truth of the Jinvp and Jr oracles"],
+                "mpmath (30 digits) matrix exponential / linear solve used as the truth of the Jinvp and Jr oracles",
+                "SE3/Sim3 Jinvp with rotation angle of Log X <= 0.05 (series branch of calcQ): the correctness of the Q block rests on the "
+                "mpmath oracle alone -- SE3_Jinvp_spec/_unique/_spec_valid hold for ANY matrix in the place of calcQ, and "
+                "SE3_Jinvp_first_order (via C04's SE3Log_tangent) needs angle > 0.05; theorem-level only: series and closed-form "
+                "coefficients differ by <= theta^6/300000 (calcQ_coef*_agree)"],
     "assumptions": ["group inputs are valid (unit quaternion to 1 ulp, positive scale)",
                     "Jinvp oracle: rotation angle of X below pi (principal Log), Sim3: ||ad(Log X)|| < 0.9*2*pi (radius of "
                     "convergence of the documented Bernoulli series)"],
@@ -60,15 +64,21 @@ META = {
                 "||ad xi|| <= 1 in the row-sum norm (sim3JlInv_truncation_bound: ||P·J_l - 1|| <= ||ad||^6/7500, sim3JlInv_inverse_distance: "
                 "||P - J_l^-1|| <= ||ad||^6/4700); for 1 < ||ad|| < 2pi the documented bound 2||ad||^6/30240/(1-(||ad||/2pi)^2) is measured by the "
                 "mpmath oracle only",
-                "adjoint identity on small-angle branches: SE3 with 0<theta<=eps proved with an explicit bounded residual "
-                "(SE3_Adj_identity_taylor_partial, se3_taylor_defect_bounds); Sim3 with 0<theta<=eps or 0<|sigma|<=eps only as an exact "
-                "residual formula (Sim3_Adj_residual_partial), its size is not bounded by a theorem; the matrix-level statements "
-                "(*_exp_Adj, with Mathlib's matrix exponential) hold for every input",
-                "Jinvp as the first-order change of Log(Exp(tau)@X): proved for so3 in the form 'so3_Jl is the left Jacobian of Exp' "
-                "(so3Jl_hasDerivAt) + JlInv·Jl = 1 for every valid X with angle > eps (*_Jinvp_spec_valid); se3: block inverses proved here, "
-                "'se3_Jl is the derivative of Exp' is C04's se3_Exp_tangent; sim3: J_l(ad)·ad = exp(ad) - 1 for the series (sim3_JlSeries_is_left_jacobian), "
-                "the link between that series and the model's Exp is C01/C04; finite differences on the real code for all four",
-                "Jr derivative form proved for eps<theta and at x=0; on 0<theta<=eps the code returns the identity (first-order accurate)"],
+                "adjoint identity on small-angle branches of the CODED Exp: SO3/RxSO3 exact for every a; SE3 Adj with 0<theta<=eps proved with an "
+                "explicit bounded residual (SE3_Adj_identity_taylor_partial, se3_taylor_defect_bounds), SE3 AdjT there: no theorem; Sim3 with "
+                "0<theta<=eps or 0<|sigma|<=eps: only an exact algebraic unfolding (Sim3_Adj_residual_partial, no size bound), AdjT: no theorem. "
+                "The matrix-level statements (*_hat_Adj/_AdjT, *_exp_Adj/_AdjT) hold for every input but are about matrix(X) and MATHLIB's "
+                "exp of the hat matrix, not about the coded Exp; no theorem here combines them with C01 into a bound for the coded Exp on "
+                "Taylor branches -- those inputs are covered by the 50-digit vee(M a^ M^-1) oracle only",
+                "Jinvp as the first-order change of Log(Exp(tau)@X): SO3 (angle > eps) and SE3 (angle > max(eps, 0.05)) are theorems "
+                "(SO3_Jinvp_first_order, SE3_Jinvp_first_order, through C04's Log/Retr tangent theorems); RxSO3: Jl·Jinvp = p and uniqueness "
+                "(RxSO3_Jinvp_spec/_unique, no first-order theorem); Sim3: truncation, distance theorems only; ||Log X|| <= eps: exact defect polynomial for "
+                "SO3 (SO3_Jinvp_spec_taylor_partial) and Jinvp(identity, p) = p for all four groups (*_Jinvp_one); otherwise finite differences "
+                "and the mpmath oracle on the real code",
+                "Jr = Jl(-x), R(Exp x)·Jr = Jl and the derivative form are proved for eps < ||x|| (and the value 1 at x = 0); on 0<||x||<=eps the "
+                "code returns the identity, for which the clause Jr = Jl(-x) is FALSE by O(eps) (disclosed; so3Jr_small_angle states what it returns)",
+                "batching/broadcasting of Adj/AdjT/Jinvp/Jr (incl. the empty-batch `dim = a.shape[-1]` branch of Adj) is not modelled in Lean for "
+                "C05 (C06's subject); covered by the correspondence check only (shape pairs incl. empty, large sizes, split consistency)"],
 }
 
 K_ALG = 64.0
